@@ -5,7 +5,10 @@ tie    : random histories over 2-4 real models executed in-process; sha256 diges
          every output are logged after each op; the Lean model (Model/Rng.lean, run in the free
          term algebra by Driver/Rng.lean) predicts which of them must coincide and which must be
          different; the two equality patterns are compared.
-search : the property's own statement as an oracle on the real code (no Lean).
+search : the property's own statement as an oracle on the real code (no Lean), including result ownership:
+         two calls never return the same object / shared memory, and after the caller overwrites every result
+         in place the same (size, seed) / the same seeded call sequence still gives the first result bit for
+         bit -- directly and through every generator that composes another (positional and keyword calls).
 """
 import copy
 import hashlib
@@ -701,6 +704,71 @@ def run(ctx, lean):
 
 
 # --------------------------------------------------------------------------------------- oracle on the real code
+SENTINEL = 12345.0
+ALL_GENERATORS = ('bivariate_age_income', 'trivariate_xyz', 'univariate_bernoulli', 'univariate_bimodal',
+                  'univariate_uniform', 'univariate_normal', 'univariate_degenerate', 'univariate_exponential',
+                  'univariate_beta', 'univariates')
+
+
+def snapshot(x):
+    """bitwise copy of a result (labels + float payload), detached from the object."""
+    cols = [str(c) for c in x.columns] if isinstance(x, pd.DataFrame) else None
+    a = x.to_numpy(dtype=float) if isinstance(x, (pd.DataFrame, pd.Series)) else np.asarray(x, dtype=float)
+    return cols, np.array(a, dtype=float, copy=True)
+
+
+def snap_equal(a, b):
+    return a[0] == b[0] and a[1].shape == b[1].shape and a[1].tobytes() == b[1].tobytes()
+
+
+def buffers(x):
+    """the numpy buffers a result exposes (one per column for a frame)."""
+    if isinstance(x, pd.DataFrame):
+        return [x[c].to_numpy() for c in x.columns]
+    if isinstance(x, pd.Series):
+        return [x.to_numpy()]
+    return [np.asarray(x)]
+
+
+def aliased(x, y):
+    """do two results share the object or any memory?"""
+    if x is y:
+        return 'same object'
+    for a in buffers(x):
+        for b in buffers(y):
+            try:
+                if a.size and b.size and np.shares_memory(a, b):
+                    return 'shared memory'
+            except Exception:  # noqa
+                if a.size and b.size and np.may_share_memory(a, b):
+                    return 'shared memory (may)'
+    return None
+
+
+def scribble(x):
+    """what a caller may do with HIS result: overwrite it in place, through the object and through
+    every writable buffer it exposes."""
+    try:
+        if isinstance(x, pd.DataFrame):
+            for c in list(x.columns):
+                x[c] = x[c].to_numpy(dtype=float, copy=True) * -3.0 + 1.0
+            x.iloc[:, :] = SENTINEL
+        elif isinstance(x, pd.Series):
+            x *= -3.0
+            x += 1.0
+            x.iloc[:] = SENTINEL
+        else:
+            x[...] = SENTINEL
+    except Exception:  # noqa
+        pass
+    for b in buffers(x):
+        try:
+            if b.flags.writeable:
+                b[...] = SENTINEL
+        except Exception:  # noqa
+            pass
+
+
 WRAPPER_CONSEQUENCES = ('global-perturbed', 'not-deterministic', 'own-stream-not-advancing', 'reseed-not-replaying')
 
 
@@ -877,6 +945,96 @@ def search(ctx, deep, only=None):
                 if mdig(inst) != mdig(ref):
                     fail(p, 'exception-unsafe', dict(inp, call=c.label), 'state after the raising call differs from the state after the same draws',
                          'finally stores the advanced state')
+    # ---- O8 results belong to the caller: no aliasing between calls, edits never leak into later calls
+    for _ in range(rounds):
+        for p in zoo:
+            good = [c for c in p.ok_calls if c.draws and not c.raises]
+            if not good:
+                continue
+            seed = rng.choice(SEEDS)
+            calls = [rng.choice(good) for _ in range(3)]
+            a, ref = p.new(seed, False), p.new(seed, rng.random() < 0.5)
+            inp = {'seed': seed, 'calls': [c.label for c in calls]}
+            expected = [snapshot(c.run(ref)) for c in calls]           # untouched twin
+            results, first_snap = [], None
+            for k, c in enumerate(calls):
+                r = c.run(a)
+                checks += 2
+                for j, old_r in enumerate(results):
+                    why = aliased(r, old_r)
+                    if why:
+                        fail(p, 'result-aliased-across-calls', dict(inp, call=k, earlier_call=j), why,
+                             'every call returns a fresh object sharing no memory with earlier results')
+                if not snap_equal(snapshot(r), expected[k]):
+                    fail(p, 'not-deterministic-after-caller-edit', dict(inp, call=k),
+                         'after the caller overwrote the results of the earlier calls, this call differs from the same call '
+                         'of an equal model with the same seed whose results were left alone',
+                         'the stream is a function of (parameters, seed, own call sequence)')
+                if first_snap is None:
+                    first_snap = snapshot(r)
+                results.append(r)
+                scribble(r)
+            # same seed again: the first result's snapshot must come back
+            a.set_random_state(seed)
+            again = calls[0].run(a)
+            checks += 2
+            why = next((w for w in (aliased(again, r) for r in results) if w), None)
+            if why:
+                fail(p, 'result-aliased-across-calls', dict(inp, call='replay of call 0 after set_random_state(seed)'), why,
+                     'every call returns a fresh object')
+            if not snap_equal(snapshot(again), first_snap):
+                fail(p, 'not-deterministic-after-caller-edit', dict(inp, call='replay of call 0 after set_random_state(seed)'),
+                     'differs from the snapshot of the first result taken before the caller edited it',
+                     'set_random_state(s) then sample == the first sample of a model seeded with s')
+    # ---- O9 dataset generators: same, for every generator and through every generator that composes another
+    for _ in range(2 * rounds):
+        size, seed = rng.choice((1, 2, 7, 50)), rng.choice((0, 3, 42, 12345))
+        inp = {'size': size, 'seed': seed}
+        gens = {n: getattr(datasets, 'sample_' + n) for n in ALL_GENERATORS}
+        # positional and keyword calls (a memoising wrapper keys them differently; the library calls positionally)
+        first = {n: f(size, seed) for n, f in gens.items()}
+        snaps = {n: snapshot(r) for n, r in first.items()}
+        second = {n: f(size=size, seed=seed) for n, f in gens.items()}
+
+        def dsfail(name, what, obs, req, extra=None):
+            nonlocal found
+            found += 1
+            ctx.fail_input(f'datasets.sample_{name}', dict(inp, **(extra or {})), obs, req, f'datasets.sample_{name}:{what}')
+        for n in ALL_GENERATORS:
+            checks += 2
+            if not snap_equal(snapshot(second[n]), snaps[n]):
+                dsfail(n, 'not-deterministic', 'two calls with the same (size, seed) differ', 'deterministic in (size, seed)')
+            same_style = [gens[n](size, seed), gens[n](size=size, seed=seed)]
+            why = aliased(first[n], second[n]) or aliased(first[n], same_style[0]) or aliased(second[n], same_style[1])
+            if why:
+                dsfail(n, 'result-aliased-across-calls', f'two calls with the same arguments returned {why}',
+                       'equal but distinct objects sharing no memory')
+            for n2 in ALL_GENERATORS:
+                if n2 < n:
+                    why = aliased(first[n], first[n2]) or aliased(first[n], second[n2])
+                    if why:
+                        dsfail(n, 'result-aliased-across-calls', f'{why} with the result of sample_{n2}',
+                               'results of different generators share no memory', {'other': n2})
+        # the caller edits everything he was given, in place
+        order = list(ALL_GENERATORS)
+        rng.shuffle(order)
+        for n in order:
+            scribble(first[n])
+            scribble(second[n])
+        np.random.seed(rng.randrange(10 ** 6))
+        rng.shuffle(order)
+        for n in order:
+            checks += 1
+            third = gens[n](size, seed) if rng.random() < 0.5 else gens[n](size=size, seed=seed)
+            if not snap_equal(snapshot(third), snaps[n]):
+                sn = snapshot(third)
+                k = int(np.argmax(sn[1].ravel() != snaps[n][1].ravel())) if sn[1].shape == snaps[n][1].shape else -1
+                dsfail(n, 'not-deterministic-after-caller-edit',
+                       {'first_differing_cell': k, 'before': float(snaps[n][1].ravel()[k]) if k >= 0 else None,
+                        'after': float(sn[1].ravel()[k]) if k >= 0 else None},
+                       'after the caller overwrote earlier results in place, the same (size, seed) must still give the '
+                       'first result bit for bit (directly and through every generator built on another)')
+            scribble(third)
     # ---- O6 datasets
     names = list(DATASETS) + ['univariate_bimodal']
     for name in names:
